@@ -58,6 +58,36 @@ inline Problem effectiveFromPoints(const Problem &p, std::vector<double> *tp_out
 // A spline for problem p obtained through a random route: one of the constructors, or a long-lived object with a
 // short history of earlier problems (same or different N, either update overload) and read-only queries, finally
 // updated with p.  viaPoints tells which time specification the final step used (the effective problem differs).
+// Another split of the same horizon: same N, same start time and a bitwise identical end time, different interior knot
+// times (re-timing inside a fixed horizon).  Returns false when no such split was found.
+inline bool resplitSameHorizon(Rng &r, Problem &p)
+{
+    if (p.N < 2)
+        return false;
+    const double end = p.timePoints().back();
+    for (int tries = 0; tries < 16; ++tries)
+    {
+        Problem q = p;
+        int i = r.range(0, p.N - 1), j = r.range(0, p.N - 1);
+        if (i == j)
+            continue;
+        if (r.coin() && q.T[i] != q.T[j])
+            std::swap(q.T[i], q.T[j]);
+        else
+        {
+            double d = std::ldexp(1.0, (int)std::floor(std::log2(0.25 * std::min(q.T[i], q.T[j]))));
+            q.T[i] += d;
+            q.T[j] -= d;
+        }
+        if (bitEqual(q.timePoints().back(), end) && !bitEqualVec(q.timePoints(), p.timePoints()))
+        {
+            p = q;
+            return true;
+        }
+    }
+    return false;
+}
+
 inline std::unique_ptr<ISpline> makeSplineHist(Ctx &c, Rng &r, const Problem &p, bool &viaPoints)
 {
     int mode = r.range(0, 5);
@@ -116,19 +146,30 @@ inline std::unique_ptr<ISpline> makeSplineHist(Ctx &c, Rng &r, const Problem &p,
             q = genProblem(r, p.order, p.dim, p.N);
             q.T = p.T;
             q.t0 = p.t0;
-            if (r.coin())
+            int k = r.range(0, 2);
+            if (k == 0)
             {
                 double eps = std::pow(10.0, -(double)r.range(7, 12));
                 for (auto &t : q.T)
                     t *= 1.0 + eps * r.uni(-1, 1);
             }
+            else if (k == 1 && resplitSameHorizon(r, q))
+                c.event("history.same_horizon_other_split_before_final");
         }
         prev = q;
         havePrev = true;
-        if (r.coin(0.6))
-            L->updateDur(q.T, q.P, q.t0, q.bc);
-        else
-            L->updatePts(q.timePoints(), q.P, q.bc);
+        {
+            // the overloads with the boundary argument omitted mean "zero boundary state"
+            const int how = r.range(0, 9);
+            if (how < 5)
+                L->updateDur(q.T, q.P, q.t0, q.bc);
+            else if (how < 8)
+                L->updatePts(q.timePoints(), q.P, q.bc);
+            else if (how == 8)
+                L->updateDurDefaultBC(q.T, q.P, q.t0);
+            else
+                L->updatePtsDefaultBC(q.timePoints(), q.P);
+        }
         // queries that populate lazy caches / internal workspaces
         if (r.coin(0.7))
             (void)L->energy();
@@ -149,6 +190,19 @@ inline std::unique_ptr<ISpline> makeSplineHist(Ctx &c, Rng &r, const Problem &p,
             MatrixXd g = MatrixXd::Constant(q.ncoef() * q.N, q.dim, 0.5);
             (void)L->propagate(g, VectorXd::Constant(q.N, 0.25), r.coin());
         }
+    }
+    bool zeroBC = true;
+    for (int k = 1; k <= 3; ++k)
+        zeroBC = zeroBC && p.bc.s(k).isZero(0) && p.bc.e(k).isZero(0);
+    if (zeroBC && r.coin(0.6))
+    {
+        // zero boundary state requested by omitting the argument, on an object that held a non-zero one
+        if (viaPoints)
+            L->updatePtsDefaultBC(p.timePoints(), p.P);
+        else
+            L->updateDurDefaultBC(p.T, p.P, p.t0);
+        c.event("route.reused_object_update_boundary_omitted");
+        return L;
     }
     if (viaPoints)
         L->updatePts(p.timePoints(), p.P, p.bc);
@@ -900,8 +954,17 @@ inline void runC18(Ctx &c)
             char rb[32];
             snprintf(rb, sizeof rb, "ratio_le_%g", ratios[std::min<int>(7, (int)(std::lower_bound(ratios, ratios + 8, durRatio(p.T) * (1 - 1e-12)) - ratios))]);
             c.event(rb);
-            auto s = makeSplineDur(p);
-            c18Judge(c, p, s->coeffs(), "random");
+            // fresh or reused object, either overload; the time-point overload means durations tp[i+1]-tp[i]
+            bool viaPts = false;
+            auto s = makeSplineHist(c, r, p, viaPts);
+            Problem pj = p;
+            if (viaPts)
+            {
+                std::vector<double> tp = p.timePoints();
+                for (int i = 0; i < p.N; ++i)
+                    pj.T[i] = tp[i + 1] - tp[i];
+            }
+            c18Judge(c, pj, s->coeffs(), "random");
         }
         // adversarial hill-climbing on the duration vector at a fixed ratio (thorough, and a little in quick)
         const uint64_t climbs = c.count(thorough ? 6 : 1);
